@@ -10,12 +10,15 @@
 
    ops:  ipclass x<hex>                         -> l=<b> u=<b> b=<b> t=<hex|n>   (IsLocal, IsUnspecified, IsLoopback, To4)
          strip <structure> <ignored>            -> unchanged | keep=<ids per media> rest=1
+         stripmf <structure> <ignored>          the same when desc.Marshal() of the stripped description failed
          peer  <structure> <caps> <ignored>     -> nil | x<hex>                    (caps: comma list of n | x<hex>)
 
    whole description at line level (Model/SdpStripLines.v); ids stand for exact line texts of pion's
    re-marshalling of the input:
      lstruct = U | <e>;<session>;<media>;<media>…
-        e        1 when Marshal(Unmarshal(text)) is byte-identical to text, else 0
+        e        1 when Marshal(Unmarshal(text)) is byte-identical to text, else 0; followed by F when
+                 desc.Marshal() of the STRIPPED description returned an error (the driver re-runs the library
+                 calls of util.StripLocalAddresses; marshal_ok = false in Model/SdpStripLines.v)
         session  "-" or comma list of line ids
         media    comma list: h<id> for the m=/i=/c=/b=/k= lines, then attribute tokens as above
          lines <lstruct> <ignored>                                  -> unchanged | lines=<ids>
@@ -98,18 +101,31 @@ Definition msec_parse (t : bytes) : option msec :=
     end in
   go toks [].
 
-(* Some None = U; the flag = pion's re-marshalling of the input is the input *)
-Definition lstruct_parse (t : bytes) : option (option (bool * sdesc)) :=
+(* e field: (exact, marshal_ok) *)
+Definition eflag_parse (e : bytes) : option (bool * bool) :=
+  match e with
+  | [c] => option_map (fun b => (b, true)) (bool_parse [c])
+  | [c; 70] => option_map (fun b => (b, false)) (bool_parse [c])
+  | _ => None
+  end.
+
+(* Some None = U; the flags = pion's re-marshalling of the input is the input; Marshal of the stripped
+   description succeeded *)
+Definition lstruct_parse (t : bytes) : option (option (bool * bool * sdesc)) :=
   if beq t (bs "U") then Some None
   else
     match split_on SEMI t with
     | e :: sess :: ms =>
-        match bool_parse e, list_parse dec_parse sess, map_opt msec_parse ms with
-        | Some ex, Some sl, Some media => Some (Some (ex, mkSdesc sl media))
+        match eflag_parse e, list_parse dec_parse sess, map_opt msec_parse ms with
+        | Some (ex, mok), Some sl, Some media => Some (Some (ex, mok, mkSdesc sl media))
         | _, _, _ => None
         end
     | _ => None
     end.
+
+Definition ls_mok (p : option (bool * bool * sdesc)) : bool :=
+  match p with Some (_, mok, _) => mok | None => true end.
+Definition ls_desc (p : option (bool * bool * sdesc)) : option sdesc := option_map snd p.
 
 Definition line_ids_print (l : list line) : bytes := list_print (map (fun x => dec_print (l_id x)) l).
 
@@ -120,17 +136,17 @@ Definition lines_print (s : sent) : bytes :=
   end.
 
 (* what the broker sees: "same" when the bytes are those of the input *)
-Definition sent_print (p : option (bool * sdesc)) (s : sent) : bytes :=
+Definition sent_print (p : option (bool * bool * sdesc)) (s : sent) : bytes :=
   match s with
   | Original => bs "same"
   | Lines l =>
       match p with
-      | Some (true, d) => if Nat.eqb (List.length l) (List.length (marshal d)) then bs "same" else bs "lines=" ++ line_ids_print l
+      | Some (true, _, d) => if Nat.eqb (List.length l) (List.length (marshal d)) then bs "same" else bs "lines=" ++ line_ids_print l
       | _ => bs "lines=" ++ line_ids_print l
       end
   end.
 
-Definition osent_print (p : option (bool * sdesc)) (s : option sent) : bytes :=
+Definition osent_print (p : option (bool * bool * sdesc)) (s : option sent) : bytes :=
   match s with Some s => sent_print p s | None => bs "nochannel" end.
 
 (* ---------------------------------------------------------------- remoteIPFromSDP, fine grain *)
@@ -204,12 +220,17 @@ Definition run (args : list bytes) : bytes :=
   | [op; a; _] =>
       if beq op (bs "strip") then
         match structure_parse a with
-        | Some p => result_print (strip_text p)
+        | Some p => result_print (strip_text true p)
+        | None => ERR_BADCASE
+        end
+      else if beq op (bs "stripmf") then
+        match structure_parse a with
+        | Some p => result_print (strip_text false p)
         | None => ERR_BADCASE
         end
       else if beq op (bs "lines") then
         match lstruct_parse a with
-        | Some p => lines_print (strip_lines (option_map snd p))
+        | Some p => lines_print (strip_lines (ls_mok p) (ls_desc p))
         | None => ERR_BADCASE
         end
       else ERR_BADCASE
@@ -229,7 +250,7 @@ Definition run (args : list bytes) : bytes :=
         end
       else if beq op (bs "psend") then
         match bool_parse a, lstruct_parse c with
-        | Some keep, Some p => osent_print p (proxy_answer_sent [] true keep (option_map snd p))
+        | Some keep, Some p => osent_print p (proxy_answer_sent [] true keep (ls_mok p) (ls_desc p))
         | _, _ => ERR_BADCASE
         end
       else ERR_BADCASE
@@ -237,7 +258,7 @@ Definition run (args : list bytes) : bytes :=
       if beq op (bs "csend") || beq op (bs "csendc") then
         match bool_parse k, payload_parse b, payload_parse c, payload_parse f, lstruct_parse st with
         | Some keep, Some bu, Some cu, Some fd, Some p =>
-            osent_print p (client_offer_sent (mkCC bu cu fd keep) true (option_map snd p))
+            osent_print p (client_offer_sent (mkCC bu cu fd keep) true (ls_mok p) (ls_desc p))
         | _, _, _, _, _ => ERR_BADCASE
         end
       else ERR_BADCASE
